@@ -177,8 +177,12 @@ def run_config(cfg, mode):
                              n_inner_samples=cfg.get("n_inner", 1), interval_length=cfg.get("interval_length", 3),
                              **({"storage_length": cfg["storage"].get("size", 3)} if not skw else skw), **kw)
         digests = []
+        retained = []
         for t in range(1, cfg["T"] + 1):
             x, y = row(cfg, t)
+            if mode == "B":
+                retained.append(x)      # object identities: in A observations die young (addresses are reused),
+                                        # in B every observation object stays alive (all identities distinct)
             vals = None
             if e is None:
                 storage.update(x, y)
@@ -193,7 +197,8 @@ def run_config(cfg, mode):
             elif ek == "interval":
                 vals = e.explain_one(x, y, verbose=False)
             else:
-                vals = e.explain_one(x, y, update_storage=(t % 7 != 3) or t < 10)
+                # runs of consecutive update_storage=False calls (the storage length does not change in between)
+                vals = e.explain_one(x, y, update_storage=(t % 7 not in (3, 4, 5)) or t < 10)
             h = hashlib.blake2b(digest_size=12)
             if not cfg.get("default_storage"):
                 h.update(repr(canon_storage(storage)).encode())
